@@ -109,6 +109,8 @@ def _pad_stats_expr(array, pad_width, mode, stat_length):
         pad_shape = []
         pad_chunks = []
         for d, (i, s, c, w, l) in enumerate(zip(idx, array.shape, array.chunks, pad_width, stat_length)):
+            # like np.pad, a statistic is taken over no more than the axis holds
+            l = (min(l[0], s), min(l[1], s))
             if i < 1:
                 axes.append(d)
                 select.append(slice(None, l[0], None))
